@@ -1,6 +1,283 @@
+import GrafeoModel.Model.Par
 import GrafeoModel.Driver.Proto
-/-! stream `par` (stub; replaced by its builder) -/
-open Grafeo Grafeo.Proto
+
+/-! Stream `par`: partition sources, rayon fold/reduce helpers, morsel scheduler (C17). -/
+open Grafeo Grafeo.Proto Grafeo.Par Grafeo.Exec
 namespace DriverPar
-def handle (_args : List String) : Option Out := none
+
+def dashList (s : String) : Option (List Int) :=
+  if s == "-" || s == "_" then some [] else (s.splitOn ",").mapM (fun t => t.toInt?)
+
+def showRow (r : List Int) : String := joinWith "." (r.map toString)
+def showRows (rs : List (List Int)) : String := if rs.isEmpty then "-" else joinWith "," (rs.map showRow)
+
+/-- a drained source: chunks of rows, or `loop` / `panic` -/
+inductive D where
+  | ok (chunks : List (List (List Int)))
+  | loop
+  | panic
+
+def ofRes (rows : List (List Int)) : Res → D
+  | .ok rs => .ok (rs.map (sliceRows rows))
+  | .loop => .loop
+  | .panic => .panic
+
+def showSizes : D → String
+  | .ok cs => if cs.isEmpty then "-" else joinWith "," (cs.map (fun c => toString c.length))
+  | .loop => "loop"
+  | .panic => "panic"
+
+def catRows : List D → Option (List (List Int)) → String
+  | [], none => "-"
+  | [], some acc => showRows acc
+  | .ok cs :: rest, acc => catRows rest (some ((acc.getD []) ++ cs.flatten))
+  | .loop :: _, _ => "loop"
+  | .panic :: _, _ => "panic"
+
+structure Src where
+  n0 : Nat
+  rows : List (List Int)                 -- the table (readable rows)
+  whole : Nat → D                        -- chunk size ↦ drained whole source
+  part : Nat → Nat → Nat → D             -- start stop cs
+  /-- the specification constrains partitions of this table (rectangular, in range) -/
+  regular : Bool
+  inRange : Nat → Bool                   -- is a morsel end acceptable for the contract
+
+def mkSrc (kind data : String) : Option Src :=
+  match kind with
+  | "vec" =>
+    if data == "none" then
+      some { n0 := 0, rows := [], whole := fun _ => .ok [], part := fun _ _ _ => .ok [], regular := true, inRange := fun _ => true }
+    else do
+      let cols ← (data.splitOn "/").mapM dashList
+      let n0 := (cols.head?.map List.length).getD 0
+      let L := cols.foldl (fun m c => min m c.length) n0
+      let rows := (List.range L).map (fun i => cols.map (fun c => c.getD i 0))
+      pure { n0 := n0, rows := rows,
+             whole := fun cs => ofRes rows (wholeRanges L false n0 cs),
+             part := fun a b cs => ofRes rows (partRanges L false a b cs),
+             regular := cols.all (fun c => c.length == n0), inRange := fun b => b ≤ n0 }
+  | "range" => do
+    let n ← data.toNat?
+    let gen (k : Nat) : List (List Int) := (List.range k).map (fun (i : Nat) => [Int.ofNat i])
+    pure { n0 := n, rows := gen n,
+           whole := fun cs => ofRes (gen n) (wholeRanges n false n cs),
+           part := fun a b cs => ofRes (gen b) (partRanges b false a b cs),
+           regular := true, inRange := fun b => b ≤ n }
+  | "triple" => do
+    let t ← dashList data
+    let rows := t.map (fun v => [v, v + 1, v + 2])
+    let n := rows.length
+    pure { n0 := n, rows := rows,
+           whole := fun cs => ofRes rows (wholeRanges n true n cs),
+           part := fun a b cs => ofRes rows (partRanges n true a b cs),
+           regular := true, inRange := fun _ => true }
+  | "node" => do
+    let t ← dashList data
+    let rows := t.map (fun v => [v])
+    let n := rows.length
+    pure { n0 := n, rows := rows,
+           whole := fun cs => ofRes rows (wholeRanges n true n cs),
+           part := fun a b cs => ofRes rows (partRanges n true a b cs),
+           regular := true, inRange := fun _ => true }
+  | "chunk" => do
+    let chunks : List (List (List Int)) ←
+      if data == "-" then some [] else (data.splitOn "|").mapM (fun c => (dashList c).map (fun v => v.map (fun x => [x])))
+    let rows := chunks.flatten
+    pure { n0 := rows.length, rows := rows,
+           whole := fun _ => .ok (drainChunkWhole chunks),
+           part := fun a b cs => .ok (drainChunkPart chunks cs a b),
+           regular := true, inRange := fun _ => true }
+  | _ => none
+
+/-- morsel token ↦ (morsels, generated?) -/
+def parseMorsels (s : String) (n0 : Nat) : Option (List (Nat × Nat) × Option Nat) :=
+  if s.startsWith "g" then do
+    let sz ← (s.drop 1).toString.toNat?
+    pure ((generateMorsels n0 sz).map (fun m => (m.start, m.stop)), some sz)
+  else if s == "-" then some ([], none)
+  else do
+    let ms ← (s.splitOn ",").mapM (fun t =>
+      match t.splitOn "-" with
+      | [a, b] => do pure ((← a.toNat?), (← b.toNat?))
+      | _ => none)
+    pure (ms, none)
+
+def mk (m s sig : String) : Out := { model := m, spec := s, sig := if m == s then "-" else sig }
+
+def handleSrc (chunksView : Bool) (kind data morsels cs : String) : Option Out := do
+  let src ← mkSrc kind data
+  let cs ← cs.toNat?
+  let (ms, gen) ← parseMorsels morsels src.n0
+  let whole := src.whole cs
+  let parts := ms.map (fun m => src.part m.1 m.2 cs)
+  if chunksView then
+    let p := if parts.isEmpty then "-" else joinWith ";" (parts.map showSizes)
+    pure { model := s!"W={showSizes whole} P={p} reset=ok" }
+  else
+    let model := s!"W={catRows [whole] none} P={catRows parts none}"
+    let constrained := cs > 0 && src.regular && gen != some 0 && ms.all (fun m => src.inRange m.2)
+    if !constrained then pure { model := model }
+    else
+      let want : List (List Int) :=
+        match gen with
+        | some _ => src.rows
+        | none =>
+          -- a partition source "produces data only for the row range specified in the morsel"
+          let tbl := if kind == "range" then (List.range (ms.foldl (fun m x => max m x.2) 0)).map (fun (i : Nat) => [Int.ofNat i]) else src.rows
+          ms.flatMap (fun m => sliceRows tbl m)
+      pure (mk model s!"W={showRows src.rows} P={showRows want}" "partition-rows-differ")
+
+/-! ### fold -/
+
+def perThreads (threads : List Nat) (one many : String) : String :=
+  joinWith "|" (threads.map (fun t => if t == 1 then one else many))
+
+def showInts (xs : List Int) : String := if xs.isEmpty then "-" else intList xs
+
+def showOptInt : Option Int → String
+  | some v => toString v
+  | none => "panic"
+
+def showKV : Option KV → String
+  | some (k, t) => s!"{k}:{t}"
+  | none => "N"
+
+def hex16 (n : Nat) : String :=
+  String.ofList ((List.range 16).map (fun i => hexDigit (n / 16 ^ (15 - i) % 16)))
+
+def showFV : FV → String
+  | some v => toString v
+  | none => "nan"
+def showOptFV : Option FV → String
+  | some v => showFV v
+  | none => "N"
+def showStats (s : Stats) : String := s!"{s.count};{showFV s.sum};{showOptFV s.min};{showOptFV s.max}"
+
+def insertKey (kv : Int × List Int) : List (Int × List Int) → List (Int × List Int)
+  | [] => [kv]
+  | x :: xs => if kv.1 < x.1 then kv :: x :: xs else x :: insertKey kv xs
+def showPart (m : List (Int × List Int)) : String :=
+  if m.isEmpty then "-" else joinWith ";" ((m.foldr insertKey []).map (fun kv => s!"{kv.1}={intList kv.2}"))
+
+def process (x : Int) : Except Int Int := if x % 3 == 0 then .error x else .ok x
+
+def checkedSeq (xs : List Int) : Option Int := xs.foldl (fun s x => cadd s (some x)) (some 0)
+
+/-- (one-thread-pool result, sequential result) -/
+def foldResults (f items : String) : Option (String × String) :=
+  match f with
+  | "min" | "max" => do
+    let kvs : List KV ← if items == "-" then some [] else (items.splitOn ",").mapM (fun t =>
+      match t.splitOn ":" with
+      | [k, g] => do pure ((← k.toInt?), (← g.toNat?))
+      | _ => none)
+    if f == "min" then pure (showKV (parMin (shape1 kvs)), showKV (kvs.foldl minF none))
+    else pure (showKV (parMax (shape1 kvs)), showKV (kvs.foldl maxF none))
+  | "stats" => do
+    let xs : List FV ← if items == "-" then some [] else (items.splitOn ",").mapM (fun t =>
+      if t == "nan" then some none else t.toInt?.map some)
+    pure (showStats (parStats (shape1 xs)), showStats (xs.foldl statsF Stats.init))
+  | _ => do
+    let xs ← dashList items
+    match f with
+    | "count" => pure (toString (parCount (fun x => x % 2 == 0) (shape1 xs)), toString (xs.foldl (countF (fun x => x % 2 == 0)) 0))
+    | "sum_i64" => pure (showOptInt (parSumI64Checked (shape1 xs)), showOptInt (checkedSeq xs))
+    | "sumf" =>
+      let ys := xs.map rne53
+      pure (hex16 (F64.i64ToF64 (parSumF (shape1 ys))), hex16 (F64.i64ToF64 (ys.foldl fadd 0)))
+    | "try" =>
+      let sh (r : List Int × List Int) := s!"{showInts r.1}/{showInts r.2}"
+      pure (sh (parTryCollect process (shape1 xs)), sh (xs.foldl (tcF process) ([], [])))
+    | "part" =>
+      pure (showPart (parPartition (fun x => x % 4) id (shape1 xs)), showPart (xs.foldl (partF (fun x => x % 4) id) []))
+    | "fr" =>
+      pure (showInts (foldReduce [] (fun acc x => acc ++ [x]) (· ++ ·) (shape1 xs)), showInts (xs.foldl (fun acc x => acc ++ [x]) []))
+    | "frw" =>
+      pure (toString (foldReduce (100 : Int) (· + ·) (fun a b => a + b - 100) (shape1 xs)), toString (xs.foldl (· + ·) (100 : Int)))
+    | "frwbad" =>
+      pure (toString (foldReduce (100 : Int) (· + ·) (· + ·) (shape1 xs)), toString (xs.foldl (· + ·) (100 : Int)))
+    | _ => none
+
+def handleFold (f items threads : String) : Option Out := do
+  let ts ← parseNatList threads
+  if ts.isEmpty || ts.any (fun t => t == 0 || t > 8) then none
+  let (one, seq) ← foldResults f items
+  -- pools of more than one thread: rayon's shape is not determined; the model answers with the
+  -- sequential value, which the theorems justify for the shape-independent helpers
+  -- the specification (= sequential fold) constrains the line unless the sequential value itself
+  -- is outside C17: inexact f64 sums (order-dependent by nature), i64 overflow (a panic in debug
+  -- builds), and `frwbad` (the caller's own non-neutral `init`)
+  let absSum : Nat := ((dashList items).getD []).foldl (fun a x => a + x.natAbs) 0
+  let free := f == "frwbad" || (f == "sumf" && absSum ≥ 2 ^ 53) || (f == "sum_i64" && absSum ≥ 2 ^ 63)
+  if free then pure { model := perThreads ts one seq }
+  else pure (mk (perThreads ts one seq) (perThreads ts seq seq)
+    (if f == "stats" then "stats-nan-split-dependent" else s!"fold-{f}-shape-dependent"))
+
+/-! ### scheduler -/
+
+def showRet : Option Nat → String
+  | some m => toString m
+  | none => "N"
+
+def schedStep (w : Nat) (step : String) (s : Sched) : Option (String × Sched) :=
+  let op := (step.take 1).toString
+  let arg := (step.drop 1).toString
+  let widx (a : String) : Option Nat := a.toNat?.bind (fun i => if i < w then some i else none)
+  match op with
+  | "s" => do pure (".", submit (← arg.toNat?) s)
+  | "b" => do
+    let ids ← if arg == "" then some [] else (arg.splitOn ".").mapM (fun t => t.toNat?)
+    pure (".", submitBatch ids s)
+  | "f" => if arg == "" then some (".", finishSubmission s) else none
+  | "G" => if arg == "" then (let r := getGlobal s; some (showRet r.1, r.2)) else none
+  | "g" => do
+    let i ← widx arg
+    let r := getWork i s
+    pure (showRet r.1, r.2)
+  | "t" => do
+    let i ← arg.toNat?
+    if i > 64 then none
+    let r := stealWork i s
+    pure (showRet r.1, r.2)
+  | "p" =>
+    match arg.splitOn "." with
+    | [a, b] => do pure (".", pushLocal (← widx a) (← b.toNat?) s)
+    | _ => none
+  | "c" => do
+    let _ ← widx arg
+    pure (".", complete s)
+  | _ => none
+
+def runSched (w : Nat) : List String → Sched → List String → Option (List String × Sched)
+  | [], s, acc => some (acc.reverse, s)
+  | st :: rest, s, acc => do
+    let (ret, s') ← schedStep w st s
+    runSched w rest s' (s!"{ret}/{s'.active}/{if s'.done then 1 else 0}" :: acc)
+
+def handleSched (workers numa program : String) : Option Out := do
+  let w ← workers.toNat?
+  if w > 16 then none
+  let wpn ←
+    if numa == "d" then some (autoWpn w)
+    else if numa.startsWith "n" then
+      match (numa.drop 1).toString.splitOn "x" with
+      | [a, b] => do
+        let _ ← a.toNat?
+        let b ← b.toNat?
+        if b == 0 then none else some (some b)
+      | _ => none
+    else none
+  let steps := if program == "-" then [] else program.splitOn ";"
+  let (outs, s) ← runSched w steps (Sched.init w wpn) []
+  pure { model := s!"{if outs.isEmpty then "-" else joinWith "," outs} T={s.total} S={if s.subDone then 1 else 0}" }
+
+def handle (args : List String) : Option Out :=
+  match args with
+  | ["src", kind, data, morsels, cs] => handleSrc false kind data morsels cs
+  | ["src.chunks", kind, data, morsels, cs] => handleSrc true kind data morsels cs
+  | ["fold", f, items, threads] => handleFold f items threads
+  | ["sched", w, numa, program] => handleSched w numa program
+  | _ => none
+
 end DriverPar
